@@ -136,6 +136,46 @@ def run_enums(acc):
                     )
         per_enum[name] = n
     acc.extra["member_token_pairs_per_enum"] = per_enum
+    run_aliases(acc)
+
+
+def run_aliases(acc):
+    """'...the enumerations and their aliases': a module-level name of pptx.enum.* bound to an enumeration under another name
+    (MSO_SHAPE, PP_ALIGN, XL_LABEL_POSITION...) must be the name its OWN documentation gives it - the class docstring's
+    'Alias: ``X``' line or the import line of its example - and every name a docstring gives that way must be bound to that class."""
+    import enum
+    import re
+
+    import pptx.enum.action, pptx.enum.chart, pptx.enum.dml, pptx.enum.lang, pptx.enum.shapes, pptx.enum.text  # noqa
+
+    for mod in (pptx.enum.action, pptx.enum.chart, pptx.enum.dml, pptx.enum.lang, pptx.enum.shapes, pptx.enum.text):
+        classes = {n: c for n, c in vars(mod).items() if isinstance(c, type) and issubclass(c, enum.Enum) and c.__module__ == mod.__name__}
+        documented = {}
+        for n, c in classes.items():
+            if n != c.__name__:
+                continue
+            doc = c.__doc__ or ""
+            names = set(re.findall(r"Alias:\s*`+([A-Z_]+)`+", doc))
+            for imp in re.findall(r"from %s import ([A-Z_, ]+)" % re.escape(mod.__name__), doc):
+                names.update(x.strip() for x in imp.split(","))
+            for a in names - {n}:
+                if a in classes and classes[a].__name__ == a:
+                    continue  # the example imports another enumeration as well
+                documented.setdefault(a, []).append(c)
+        for a, c in classes.items():
+            if a == c.__name__:
+                continue
+            acc.count("enum_aliases_judged")
+            acc.case(desc={"alias": a, "class": c.__name__}, nontrivial=True, cls="module-alias")
+            owners = documented.get(a, [])
+            if owners and c not in owners:
+                acc.violation("alias-bound-to-another-enumeration:%s" % a, "%s.%s is %s, but it is %s whose documentation names it" % (mod.__name__, a, c.__name__, owners[0].__name__), {"alias": a})
+            elif not owners:
+                acc.count("enum_aliases_not_named_in_any_docstring")
+                acc.note("%s.%s = %s is not named in any class docstring" % (mod.__name__, a, c.__name__))
+        for a, owners in documented.items():
+            if a not in vars(mod):
+                acc.violation("documented-alias-missing:%s" % a, "%s documents the name %s, which %s does not define" % (owners[0].__name__, a, mod.__name__), {"alias": a})
 
 
 def preset_defs():
